@@ -107,6 +107,8 @@ int run_case(Reader& r, bool& nontrivial, std::string& desc) {
     struct Cleanup { SimpleString** s; ~Cleanup() { for (int i = 0; i < 3; i++) delete s[i]; } } cleanup{s};
     int nops = 1 + (int)r.below(10);
     int slot_ops[3] = {0, 0, 0};
+    SimpleStringCollection shared_col;   // one collection reused by the split operations of the case (state must not carry over)
+    int shared_uses = 0;
     for (int op = 0; op < nops && (op == 0 || !r.empty()); op++) {   // an exhausted input ends the sequence
         int i = (int)r.below(3), j = (int)r.below(3), k = (int)r.below(3);
         uint32_t kind = r.below(34);
@@ -172,7 +174,14 @@ int run_case(Reader& r, bool& nontrivial, std::string& desc) {
                    SAME(t, mt, "C13:subStringFromTill"); desc += "fromTill;"; break; }
         case 16: { std::string d = gen_str(r, m); if (d.empty()) d = ",";
                    if (r.chance(2, 3)) d = d.substr(0, 1);
-                   SimpleStringCollection col; s[i]->split(d.c_str(), col);
+                   SimpleStringCollection fresh_col;
+                   bool reuse = r.below(3) != 0;
+                   if (reuse && r.below(6) == 1) { size_t na = r.below(6); shared_col.allocate(na); shared_uses++;     // direct allocate: na default-constructed (empty) strings
+                       V_CHECK(shared_col.size() == na, "C13:collection-allocate", "allocate(%zu) left size() == %zu", na, shared_col.size());
+                       for (size_t q = 0; q < na; q++) V_CHECK(shared_col[q].size() == 0, "C13:collection-allocate", "allocate(%zu): element %zu is not empty", na, q); }
+                   SimpleStringCollection& col = reuse ? shared_col : fresh_col;
+                   if (reuse) { if (shared_uses++ > 0) nontrivial = true; }
+                   s[i]->split(d.c_str(), col);
                    if (d.size() == 1) {   // value oracle: tokens keep their delimiter and concatenate to the input
                        std::vector<std::string> exp; std::string cur;
                        for (char c : m[i]) { cur.push_back(c); if (c == d[0]) { exp.push_back(cur); cur.clear(); } }
@@ -183,7 +192,7 @@ int run_case(Reader& r, bool& nontrivial, std::string& desc) {
                        for (size_t q = 0; q < col.size(); q++) (void)col[q].size();
                    }
                    SAME(col[col.size() + 3], std::string(), "C13:split-index");
-                   desc += sfmt("split(%zu);", d.size()); break; }
+                   desc += sfmt("split(%zu%s);", d.size(), reuse ? ",reused" : ""); break; }
         case 17: { char to = (char)(1 + r.below(255)), with = (char)(1 + r.below(255)); if (!m[i].empty() && r.flag()) to = m[i][r.below((uint32_t)m[i].size())];
                    s[i]->replace(to, with); for (auto& c : m[i]) if (c == to) c = with; SAME(*s[i], m[i], "C13:replace-char"); desc += "replc;"; break; }
         case 18: { std::string to = gen_str(r, m), with = gen_str(r, m);
